@@ -16,6 +16,7 @@ import (
 	"pgregory.net/rapid"
 
 	"verifharness/internal/gen"
+	"verifharness/internal/ref"
 	"verifharness/internal/rt"
 )
 
@@ -226,6 +227,32 @@ func TestBatches(t *testing.T) {
 					it.req = sess.State2.Request()
 				}
 				items = append(items, it)
+				// now and then the request is followed by a COPY of it that differs only in the truncated key id (same blinded
+				// element / message): addressed to nobody, or to another configured issuer of the type. Whether it is answered is
+				// what the per-type issuers say (model below); it has no client state of its own.
+				if gen.Uniform(t, 6, "copyWithOtherKeyID") == 0 {
+					cp := item{kind: it.kind + "+copy-other-keyid", crafted: true}
+					otherID := byte(gen.Uniform(t, 256, "otherKeyID"))
+					switch r := it.req.(type) {
+					case *type1.BasicPrivateTokenRequest:
+						if len(iss1) > 1 && rapid.Bool().Draw(t, "idOfAnotherIssuer") {
+							otherID = last(gen.Pick(t, iss1, "otherIssuer1").TokenKeyID())
+						}
+						cp.req = &type1.BasicPrivateTokenRequest{TokenKeyID: otherID, BlindedReq: append([]byte{}, r.BlindedReq...)}
+					case *type2.BasicPublicTokenRequest:
+						if len(iss2) > 1 && rapid.Bool().Draw(t, "idOfAnotherIssuer") {
+							otherID = last(gen.Pick(t, iss2, "otherIssuer2").TokenKeyID())
+						}
+						cp.req = &type2.BasicPublicTokenRequest{TokenKeyID: otherID, BlindedReq: append([]byte{}, r.BlindedReq...)}
+					}
+					if cp.req != nil && cp.req.TruncatedTokenKeyID() != it.req.TruncatedTokenKeyID() {
+						if rapid.Bool().Draw(t, "copyFirst") {
+							items = append(items[:len(items)-1], cp, it)
+						} else {
+							items = append(items, cp)
+						}
+					}
+				}
 			}
 			if len(items) == 0 {
 				continue
@@ -324,8 +351,8 @@ func TestBatches(t *testing.T) {
 				}
 				if it.sess == nil {
 					// crafted message that the per-type issuer signs: no client state to finalize with
-					if len(resps[i]) != 256 {
-						rt.Fail(t, "C05/finalize", "entry %d (%s): %d-byte response to a type-2 request", i, it.kind, len(resps[i]))
+					if want := ref.BasicResponseLen(it.req.Type()); len(resps[i]) != want {
+						rt.Fail(t, "C05/finalize", "entry %d (%s): %d-byte response to a type-%d request (expected %d)", i, it.kind, len(resps[i]), it.req.Type(), want)
 						return
 					}
 					continue
@@ -532,13 +559,22 @@ func TestTruncatedIDCollisions(t *testing.T) {
 
 // TestLargeBatches: batch sizes whose request and response lists cross the 2-byte -> 4-byte varint boundary (16383 bytes).
 func TestLargeBatches(t *testing.T) {
-	s := rt.S("large-batches").SetRule("batches with 63, 64, 65 successful type-2 requests (259-byte entries: 16317 / 16576 / 16835 bytes), 110, 111, 112 successful type-1 requests (148-byte entries) and mixed batches of that size, and batches whose response list exceeds 65535 bytes (266 type-2, 462 type-1, 240+125), with a few failing requests inside, over the wire; same oracle (one entry per request in order, presence per model, present entries finalize). non-trivial = every batch; distinct by batch bytes")
+	s := rt.S("large-batches").SetRule("batches with 63, 64, 65 successful type-2 requests (259-byte entries: 16317 / 16576 / 16835 bytes), 110, 111, 112 successful type-1 requests (148-byte entries) and mixed batches of that size, and batches whose response list exceeds 65535 bytes (266 type-2, 462 type-1, 240+125), with a few failing requests inside, and compositions with EXACT list lengths (request list 16384 bytes; response lists 16383, 16384, 65535, 65536 bytes), over the wire; same oracle (one entry per request in order, presence per model, present entries finalize). non-trivial = every batch; distinct by batch bytes")
 	// every 37th request fails, so e.g. 66 type-2 requests give 64 present entries (16576 bytes + 2 absent markers)
-	sizes := []struct{ n1, n2 int }{{0, 65}, {0, 66}, {0, 67}, {113, 0}, {114, 0}, {115, 0}, {60, 50},
+	// nAbs > 0 or exact: no request fails except nAbs type-1 requests with an unknown key id appended at the end (52 bytes
+	// in the request list, 1 byte in the response list), so that the list lengths are EXACT
+	type size struct {
+		n1, n2 int
+		exact  bool
+		nAbs   int
+	}
+	sizes := []size{{0, 65, false, 0}, {0, 66, false, 0}, {0, 67, false, 0}, {113, 0, false, 0}, {114, 0, false, 0}, {115, 0, false, 0}, {60, 50, false, 0},
 		// response lists beyond 65535 bytes (16-bit offsets and lengths wrap here): >= 257 present type-2 / >= 443 present type-1 entries
-		{0, 266}, {462, 0}, {240, 125}}
+		{0, 266, false, 0}, {462, 0, false, 0}, {240, 125, false, 0},
+		// exact boundaries: request list of 16384 bytes (76*52 + 48*259); response lists of 16383, 16384 and 65535, 65536 bytes
+		{76, 48, true, 0}, {0, 63, true, 66}, {0, 63, true, 67}, {0, 253, true, 8}, {0, 253, true, 9}}
 	if rt.Thorough() {
-		sizes = append(sizes, []struct{ n1, n2 int }{{0, 127}, {0, 128}, {221, 0}, {222, 0}, {100, 100}}...)
+		sizes = append(sizes, []size{{0, 127, false, 0}, {0, 128, false, 0}, {221, 0, false, 0}, {222, 0, false, 0}, {100, 100, false, 0}, {1081, 36, true, 0}}...)
 	}
 	rt.Check(t, 1, 6, func(t *rapid.T) {
 		defer rt.Entropy(gen.Seed().Draw(t, "entropy"))()
@@ -556,9 +592,9 @@ func TestLargeBatches(t *testing.T) {
 			}
 			var items []it
 			cl := gen.NewClients()
-			for i := 0; i < sz.n1+sz.n2; i++ {
+			for i := 0; i < sz.n1+sz.n2+sz.nAbs; i++ {
 				typ := uint16(1)
-				if i >= sz.n1 {
+				if i >= sz.n1 && i < sz.n1+sz.n2 {
 					typ = 2
 				}
 				sess, err := gen.NewSession(t, typ, gen.SessionOpts{OKey: k1, RKeyIdx: rsaIdx, Clients: cl})
@@ -571,7 +607,11 @@ func TestLargeBatches(t *testing.T) {
 				} else {
 					r = sess.State2.Request()
 				}
-				if i%37 == 5 { // a few failing requests inside the large batch
+				if i >= sz.n1+sz.n2 {
+					// one of the nAbs requests nobody serves
+					r = &type1.BasicPrivateTokenRequest{TokenKeyID: sess.State1.Request().TokenKeyID ^ 0xFF, BlindedReq: sess.State1.Request().BlindedReq}
+					sess = nil
+				} else if !sz.exact && i%37 == 5 { // a few failing requests inside the large batch
 					if typ == 1 {
 						r = &type1.BasicPrivateTokenRequest{TokenKeyID: sess.State1.Request().TokenKeyID, BlindedReq: make([]byte, 49)}
 					} else {
@@ -586,7 +626,7 @@ func TestLargeBatches(t *testing.T) {
 				reqs[i] = items[i].req
 			}
 			s.Eval()
-			s.Class(fmt.Sprintf("%d type-1 + %d type-2", sz.n1, sz.n2))
+			s.Class(fmt.Sprintf("%d type-1 + %d type-2 + %d unserved", sz.n1, sz.n2, sz.nAbs))
 			br, err := batched.NewBasicClient().CreateTokenRequest(reqs)
 			if err != nil {
 				rt.Fail(t, "C05/large/create", "CreateTokenRequest for %d requests: %v", len(reqs), err)
@@ -594,6 +634,14 @@ func TestLargeBatches(t *testing.T) {
 			}
 			enc := append([]byte{}, br.Marshal()...)
 			s.Nontrivial(enc)
+			var inner [][]byte
+			for _, r := range reqs {
+				inner = append(inner, r.Marshal())
+			}
+			if want := ref.EncodeBatchRequest(inner); !bytes.Equal(enc, want) {
+				rt.Fail(t, "C05/large/request-encoding", "batch request of %d requests: Marshal() differs from the reference encoding (list of %d bytes): starts %x, reference starts %x", len(reqs), len(want), enc[:8], want[:8])
+				return
+			}
 			dec := new(batched.BatchedTokenRequest)
 			if !dec.Unmarshal(enc) {
 				rt.Fail(t, "C05/large/request-decode", "batch request of %d requests (%d bytes) does not decode", len(reqs), len(enc))
@@ -602,6 +650,10 @@ func TestLargeBatches(t *testing.T) {
 			respEnc, err := bi.EvaluateBatch(dec)
 			if err != nil {
 				rt.Fail(t, "C05/large/evaluate", "EvaluateBatch on %d requests failed: %v", len(reqs), err)
+				return
+			}
+			if l, n, ok := ref.VarintDecode(respEnc); !ok || int(l) != len(respEnc)-n || n != len(ref.VarintEncode(l)) {
+				rt.Fail(t, "C05/large/response-encoding", "response list of a %d-request batch: %d bytes, length prefix %x (value %d in %d bytes) is not the shortest varint of the list length", len(items), len(respEnc), respEnc[:n], l, n)
 				return
 			}
 			resps, err := batched.UnmarshalBatchedTokenResponses(respEnc)
